@@ -490,13 +490,14 @@ class DefaultScheduler(Scheduler):
                     await self._free_resources(connector, job_allocation)
                 if status == Status.ROLLBACK:
                     for loc in job_allocation.locations:
-                        if (
-                            job_name
-                            in self.location_allocations[loc.deployment][loc.name].jobs
-                        ):
-                            self.location_allocations[loc.deployment][
+                        # Remove the job from every stacked level, as `_allocate_job` added it
+                        while loc is not None:
+                            jobs = self.location_allocations[loc.deployment][
                                 loc.name
-                            ].jobs.remove(job_name)
+                            ].jobs
+                            if job_name in jobs:
+                                jobs.remove(job_name)
+                            loc = loc.wraps if loc.stacked else None
                     job_allocation.locations.clear()
                 self.wait_queue.notify_all()
 
